@@ -20,12 +20,13 @@ CHECKS = {
     'C01': ('checks.c01', 'C01'),
     'C02': ('checks.tokedit', 'C02'),
     'C07': ('checks.store_check', 'C07'),
+    'C09': ('checks.c09', 'C09'),
     'C08': ('checks.c08', 'C08'),
     'C10': ('checks.replist_check', 'C10'),
     'C03': ('checks.replist_check', 'C03'),
     'C06': ('checks.replist_check', 'C06'),
     'C05': ('checks.replist_check', 'C05'),
-    'C19': ('checks.replist_check', 'C19'),
+    'C19': ('checks.c19', 'C19'),
 }
 
 
